@@ -10,6 +10,23 @@ import functools
 COUNTER = 0
 
 
+def gfirst[T](xs: list[T], default: T) -> T:
+    if xs:
+        return xs[0]
+    return default
+
+
+class GStack[T]:
+    def __init__(self) -> None:
+        self.items: list[T] = []
+
+    def push(self, v: T) -> int:
+        self.items.append(v)
+        if len(self.items) > 1:
+            return -len(self.items)
+        return len(self.items)
+
+
 class Base:
     def greet(self, log):
         log.append("base")
@@ -838,6 +855,54 @@ def i_in_iter_raises_then_list(x, log):
             return "caught"
 
     return [member(x, BadIter(0)), member(x, [1, 2, x]), member(x, BadIter(x % 4)), member(9, (1, 2))]
+
+
+
+def i_pep695_generics(x, log):
+    def pick[K, V](d: dict[K, V], k: K, default: V) -> V:
+        if k in d:
+            return d[k]
+        return default
+
+    type Pair[A] = tuple[A, A]
+    s = GStack[int]()
+    return (gfirst([x] * (x % 2), -1), s.push(x), s.push(x + 1), pick({1: "a"}, x % 3, "z"), Pair.__name__)
+
+
+def i_operator_raises_own_exception(x, log):
+    class Mine(Exception):
+        pass
+
+    class Odd:
+        def __init__(self, v):
+            self.v = v
+
+        def __eq__(self, o):
+            if self.v % 2:
+                raise Mine("eq")
+            return self.v == o
+
+        __hash__ = None
+
+        def __lt__(self, o):
+            if self.v % 3 == 0:
+                raise Mine("lt")
+            return self.v < o
+
+        def __contains__(self, item):
+            if self.v % 4 == 1:
+                raise Mine("contains")
+            return item == self.v
+
+    o = Odd(x)
+    out = []
+    for probe in (lambda: "eq" if o == 2 else "ne", lambda: "lt" if o < 4 else "ge", lambda: "in" if 6 in o else "nin"):
+        try:
+            out.append(probe())
+        except Mine as ex:
+            out.append(str(ex))
+            log.append(len(out))
+    return out
 
 
 FUNCS = [n for n in sorted(globals()) if n.startswith("i_")]
